@@ -199,6 +199,37 @@ static void matrix_ops(Rng& g, int m, int n, int k, int style)
 				request({{"e", "Block"}, {"A", xa}, {"B", xb}, {"C", xc}, {"D", xd}}, false,
 						[&] { return mjson(Matrix(std::vector<std::vector<Matrix>> {{to_m(xa, ea), to_m(xb, ea)}, {to_m(xc, ea), to_m(xd, ea)}}), ea); });
 			}
+	// grids of blocks with up to three block rows and block columns (heights and widths 1..2); one in three is made inconsistent
+	{
+		int br = (int)g.range(1, 3), bc = (int)g.range(1, 3);
+		std::vector<int> hs(br), ws(bc);
+		for(int& h : hs)
+			h = (int)g.range(1, 2);
+		for(int& w : ws)
+			w = (int)g.range(1, 2);
+		bool spoil = g.coin(0.33) && br * bc > 1;
+		int sr = (int)g.range(0, br - 1), scl = (int)g.range(0, bc - 1), sdir = (int)g.range(0, 1);
+		std::vector<std::vector<IM>> G(br, std::vector<IM>(bc));
+		json jg = json::array();
+		for(int r = 0; r < br; r++)
+		{
+			json jr = json::array();
+			for(int c = 0; c < bc; c++)
+			{
+				int hh = hs[r] + ((spoil && r == sr && c == scl && sdir == 0) ? 1 : 0), ww = ws[c] + ((spoil && r == sr && c == scl && sdir == 1) ? 1 : 0);
+				G[r][c] = rand_im(g, hh, ww, style);
+				jr.push_back(G[r][c]);
+			}
+			jg.push_back(jr);
+		}
+		request({{"e", "BlockG"}, {"G", jg}}, !spoil, [&] {
+			std::vector<std::vector<Matrix>> B(br);
+			for(int r = 0; r < br; r++)
+				for(int c = 0; c < bc; c++)
+					B[r].push_back(to_m(G[r][c], ea));
+			return mjson(Matrix(B), ea);
+		});
+	}
 	// scalars that are not powers of two, tiny (subnormal) and huge: every spelling of the division gives entry / s (to rounding),
 	// zero entries stay zero, finite quotients stay finite
 	{
